@@ -135,6 +135,8 @@ def check(v, tier):
     tl = sorted(texts)
     canon = dict(zip(tl, xp.retokenise(binary, tl)))
     res = xp.expand_all(binary, [r[-1] for r in reqs])
+    from .. import realmacro
+    realmacro.conformance(v, binary, [r[-1] for r in reqs], res, limit=None if tier != 'quick' else 6000)
     nontriv = 0
     for (kind, ctx, wh, rid, impls, mode, src), r in zip(reqs, res):
         key = 'C12|%s|%s|%s|%s|%s' % (kind, ctx[0], wh[0], rid, mode[0])
